@@ -1,0 +1,35 @@
+//go:build verif
+
+package srv
+
+import (
+	"context"
+	"sync/atomic"
+)
+
+// VerifYieldHook holds the registered callback (build tag verif
+// only). When set it is called at the named scheduling points of this
+// package, in the goroutine that reached the point. It is safe to set
+// and clear concurrently with running services.
+var VerifYieldHook atomic.Pointer[func(name string)]
+
+// SetVerifYieldHook installs (or with nil removes) the callback run
+// by verifYield.
+func SetVerifYieldHook(fn func(name string)) {
+	if fn == nil {
+		VerifYieldHook.Store(nil)
+		return
+	}
+	VerifYieldHook.Store(&fn)
+}
+
+func verifYield(name string) {
+	if h := VerifYieldHook.Load(); h != nil {
+		(*h)(name)
+	}
+}
+
+// VerifWaitGoroutines blocks until every goroutine that Start
+// launched for the service has returned (or the context ends). It
+// only exposes the service's internal wait group to the checker.
+func VerifWaitGoroutines(ctx context.Context, s *Service) { s.wg.Wait(ctx) }
